@@ -12,6 +12,49 @@ META = {
 }
 
 
+def exit_storm(ctx, trials):
+    """A shutdown request while topics / channels are being created and ephemeral ones removed: it must complete.
+    One trial per child process (a panic of the in-process daemon is the observation); the schedule is the Go
+    scheduler's, the number of trials makes a lost race show (7 of 60 trials died before the repair)."""
+    import os
+    import subprocess
+    from concurrent.futures import ThreadPoolExecutor
+    h = ctx.harness("core")
+
+    def one(i):
+        d = os.path.join(ctx.scratch, "storm-%d" % i)
+        os.makedirs(d, exist_ok=True)
+        try:
+            p = subprocess.run([h, "exitstorm", "--dir", d, "--delay-us", str(500 + (i % 5) * 1000 + ctx.seed % 7 * 100)],
+                               cwd=ctx.scratch, env=ctx.goenv(), capture_output=True, text=True, timeout=120)
+            return i, p.returncode, p.stdout, p.stderr
+        except subprocess.TimeoutExpired:
+            return i, -1, "", "timeout"
+
+    done = died = 0
+    with ThreadPoolExecutor(max_workers=4) as ex:
+        for i, rc, out, err in ex.map(one, range(trials)):
+            if rc == 0:
+                done += 1
+            elif "panic:" in err or "fatal error:" in err:
+                died += 1
+                head = [l for l in err.splitlines() if l.startswith("panic:") or l.startswith("fatal error:")]
+                frames = [l.strip() for l in err.splitlines() if "nsqio/nsq/nsqd." in l][:4]
+                if died == 1:
+                    ctx.violation("a graceful shutdown requested while topics/channels were being created did not complete: "
+                                  "the daemon died with `%s` in %s" % ((head or ["?"])[0][:200], " | ".join(frames)[:400]),
+                                  ctx.save_replay("exitstorm", {"trial": i, "stderr": err[-6000:]}), key="shutdown:panic-in-exit")
+            elif rc == 3:
+                ctx.violation("a graceful shutdown requested while topics/channels were being created did not return: " + out.strip()[:200],
+                              ctx.save_replay("exitstorm-blocked", {"trial": i, "stdout": out, "stderr": err[-3000:]}), key="shutdown:blocked")
+            else:
+                ctx.notes.setdefault("exitstorm_inconclusive", []).append((out + err)[-200:])
+    ctx.notes["exitstorm"] = {"trials": trials, "completed": done, "daemon_died": died}
+    ctx.cov["evaluations"] += done + died
+    from vlib import log
+    log("exit storm: %d/%d shutdowns completed, %d daemon deaths" % (done, trials, died))
+
+
 def run(ctx):
     # A': shutdown-at-point. TLC enumerates the schedules, the replayer forces them, restarts, and drains.
     pairs.run_pairs(ctx, "C05", pairs=[(x, "EXIT") for x in pairs.EXIT_PARTNERS])
@@ -25,6 +68,7 @@ def run(ctx):
     ctx.notes["restart_runs_conclusive"] = ok
     for r in runs[:2]:
         ctx.sample({"restart_run": r["scenario"], "events": r["events"], "published": r["published"], "acked": r["acked"]})
+    exit_storm(ctx, 40 if ctx.quick else 240)
     if ok == 0:
         from vlib import Inconclusive
         raise Inconclusive("no restart run completed: %s" % ctx.notes.get("inconclusive_runs", [])[:3])
